@@ -6,9 +6,20 @@ open Base
 open C09Model
 open C10Model
 
-let n_of_dec (s : string) : BinNums.coq_N = n_of_int (int_of_string s)
+(* decimal <-> N of any size (OCaml ints hold 62 bits only; offsets and durations are 64-bit) *)
+let n10 = n_of_int 10
+let n_of_dec (s : string) : BinNums.coq_N =
+  if S.length s <= 17 then n_of_int (int_of_string s)
+  else begin
+    let acc = ref BinNums.N0 in
+    S.iter (fun c -> acc := BinNat.N.add (BinNat.N.mul !acc n10) (n_of_int (Char.code c - 48))) s;
+    !acc
+  end
 let z_of_dec (s : string) : BinNums.coq_Z = z_of_int (int_of_string s)
-let dec_of_n n = string_of_int (int_of_n n)
+let n_small = n_of_int 1000000000000000000
+let rec dec_of_n n =
+  if BinNat.N.ltb n n_small then string_of_int (int_of_n n)
+  else dec_of_n (BinNat.N.div n n10) ^ string_of_int (int_of_n (BinNat.N.modulo n n10))
 let dec_of_z z = string_of_int (int_of_z z)
 let csv f s = if s = "-" || s = "" then [] else L.map f (split_on ',' s)
 let ncsv = csv n_of_dec
@@ -56,6 +67,81 @@ let res_str (f : 'a -> string) (r : 'a res) : string =
 
 let pinned = ref false
 
+let offs_str (t : tables) : string =
+  match t.t_stco, t.t_co64 with
+  | Some l, _ -> join0 "," dec_of_n l
+  | None, Some l -> join0 "," dec_of_n l
+  | None, None -> "none"
+
+let with_offsets (t : tables) (f : BinNums.coq_N -> BinNums.coq_N) : tables =
+  { t with t_stco = (match t.t_stco with Some l -> Some (L.map f l) | None -> None);
+           t_co64 = (match t.t_co64 with Some l -> Some (L.map f l) | None -> None) }
+
+(* the content of the virtual input files of the test driver at position p *)
+let file_byte (p : int) : BinNums.coq_N = small_n.((p * 7 + p / 3 + p / 251) mod 256)
+
+let shift_model (tbs : tables list) swm first : string =
+  if !pinned then
+    "ok/" ^ S.concat "|" (L.map (fun t ->
+        let d = shift_delta mdat_out_hdr swm first in
+        match t.t_stco with
+        | Some l -> join0 "," dec_of_n (shift_stco_pinned d l)
+        | None -> (match t.t_co64 with Some l -> join0 "," dec_of_n (L.map (fun o -> Base.u64 (BinNat.N.add o d)) l) | None -> "none")) tbs)
+  else
+    res_str (fun l -> "ok/" ^ S.concat "|" (L.map offs_str l)) (update_chunk_offsets swm first tbs)
+
+let groups_str (gs : BinNums.coq_N list list) : string = S.concat "|" (L.map (join0 "," dec_of_n) gs)
+
+let hdr_model (a : string array) : string =
+  let tks = L.map (fun t -> match split_on ';' t with
+      | [tk; md; el] ->
+        ((n_of_dec tk, n_of_dec md),
+         (if el = "-" then None else Some (L.map (fun g -> if g = "" then [] else L.map n_of_dec (split_on ',' g)) (split_on '|' el))))
+      | _ -> failwith "hdr track") (Array.to_list (Array.sub a 4 (Array.length a - 4))) in
+  res_str (fun (nd, tks') ->
+      "ok/" ^ dec_of_n nd ^ "/" ^ S.concat ":" (L.map (fun ((tk, md), el) ->
+          dec_of_n tk ^ ";" ^ dec_of_n md ^ ";" ^ (match el with None -> "-" | Some gs -> groups_str gs)) tks'))
+    (write_upto_mdat_durs (n_of_dec a.(0)) (n_of_dec a.(1)) (n_of_dec a.(2)) tks)
+
+let mdat_model (a : string array) : string =
+  let flen = int_of_string a.(0) in
+  let file = L.init flen file_byte in
+  let large = a.(2) = "16" in
+  let m = if a.(4) = "1" then C08Model.mdat_lazy (n_of_dec a.(1)) large (n_of_dec a.(3))
+    else C08Model.mdat_mem file (n_of_dec a.(1)) large (n_of_dec a.(3)) in
+  let rs = if a.(5) = "-" then [] else L.map (fun r -> match split_on '-' r with
+      | [s; e] -> (n_of_dec s, n_of_dec e) | _ -> failwith "range") (split_on ',' a.(5)) in
+  res_str (fun out -> "ok/" ^ (match out with [] -> "" | _ -> hex_of_bytes out)) (write_mdat file true m rs)
+
+(* cropMP4 on the virtual file: observed = <base>/<old size without mdat>/(err | ok/<new mdat start>/...) *)
+let virt_model (tbs : tables list) (a : string array) (obs : string) : string =
+  match split_on '/' obs with
+  | base :: oldswm :: rest ->
+    let base_n = n_of_dec base in
+    let tss = L.map n_of_dec (split_on ',' a.(8)) in
+    let mvts = n_of_dec a.(5) in
+    let traks = L.mapi (fun i (t, ts) -> { ti_id = n_of_int (i + 1); ti_ts = ts;
+                                           ti_tb = with_offsets t (fun o -> BinNat.N.add o base_n) })
+        (L.combine tbs tss) in
+    let swm = match rest with "ok" :: ms :: _ -> n_of_dec ms | _ -> n_of_dec oldswm in
+    let total t = L.fold_left2 (fun acc c d -> BinNat.N.add acc (BinNat.N.mul c d)) BinNums.N0 t.t_stts_count t.t_stts_delta in
+    let tks = L.map (fun tr -> ((BinNat.N.div (BinNat.N.mul (total tr.ti_tb) mvts) tr.ti_ts, total tr.ti_tb), None)) traks in
+    let r = match crop_mp4 (L.hd traks) traks (n_of_dec a.(0)) swm with
+      | Ok (et, ((tbs', ranges), ks)) ->
+        (match write_upto_mdat_durs et (L.hd traks).ti_ts mvts tks with
+         | Ok (nd, tks') ->
+           let psz = ranges_size ranges BinNums.N0 in
+           if BinNat.N.leb (n_of_dec "4294967296") (BinNat.N.add psz (n_of_int 8)) then "err"
+           else
+             S.concat "/" ["ok"; dec_of_n swm; dec_of_n (BinNat.N.add psz (n_of_int 8));
+                           dec_of_n (BinNat.N.add swm (BinNat.N.add psz (n_of_int 8)));
+                           S.concat "," (L.map dec_of_n ks); S.concat "|" (L.map offs_str tbs'); dec_of_n nd;
+                           S.concat "," (L.map (fun ((tk, _), _) -> dec_of_n tk) tks')]
+         | Err -> "err" | Panic -> "panic" | OutOfFuel -> "outoffuel")
+      | Err -> "err" | Panic -> "panic" | OutOfFuel -> "outoffuel" in
+    base ^ "/" ^ oldswm ^ "/" ^ r
+  | _ -> "badobs"
+
 (* the struct part of the stsc token: entries;single;ids (the 4th field, what Encode writes, is derived) *)
 let stsc_str (b : stsc_box) : string =
   let enc =
@@ -90,7 +176,16 @@ let () =
   iter_lines (fun line ->
       let f = Array.of_list (split_on '\t' line) in
       let nf = Array.length f in
-      if nf < 12 || f.(0) <> "K" then Printf.printf "BADLINE %s\n" (S.sub line 0 (min 60 (S.length line)))
+      if nf < 5 || f.(0) <> "K" then Printf.printf "BADLINE %s\n" (S.sub line 0 (min 60 (S.length line)))
+      else if f.(2) = "hdr" || f.(2) = "mdat" then begin
+        let id = f.(1) and op = f.(2) in
+        let a = Array.of_list (split_on ':' f.(3)) in
+        let obs = f.(nf - 1) in
+        let model = op ^ "=" ^ (if op = "hdr" then hdr_model a else mdat_model a) in
+        if model = obs then Printf.printf "OK %s\n" id
+        else Printf.printf "MISMATCH %s %s model=%s impl=%s\n" id op
+            (S.sub model 0 (min 300 (S.length model))) (S.sub obs 0 (min 300 (S.length obs)))
+      end
       else begin
         let id = f.(1) and op = f.(2) and arg = f.(3) in
         let obs = f.(nf - 1) in
@@ -127,13 +222,18 @@ let () =
               if L.exists (fun s -> s = None) states then "fill=panic"
               else begin
                 let sts = L.map (fun s -> match s with Some x -> x | None -> assert false) states in
-                let fuel = nat_of_int (1 + L.fold_left (fun acc s -> acc + int_of_n s.ts_last_chunk) 0 sts) in
+                let fuel = fill_fuel sts in
                 "fill=" ^ (match fill_loop fuel sts [] N0 N0 with
                     | Ok ((ts', rs), first) ->
                       "ok/" ^ dec_of_n first ^ "/" ^ S.concat "|" (L.map (fun s -> join0 "," dec_of_n s.ts_offsets) ts')
                       ^ "/" ^ join0 "," (fun (s, e) -> dec_of_n s ^ "-" ^ dec_of_n e) rs
                     | Err -> "err" | Panic -> "panic" | OutOfFuel -> "outoffuel")
               end
+            | "shift" -> "shift=" ^ shift_model tbs (num 0) (num 1)
+            | "virt" ->
+              let pre = "virt=" in
+              let o = if S.length obs > 5 then S.sub obs 5 (S.length obs - 5) else "" in
+              pre ^ virt_model tbs a o
             | _ -> "badop" in
           if model = obs then Printf.printf "OK %s\n" id
           else begin
